@@ -12,6 +12,7 @@ import ast
 import copy as pycopy
 import itertools
 import json
+import signal
 from pathlib import Path
 from types import SimpleNamespace
 
@@ -368,6 +369,18 @@ def op_from_json(j):
 # the real implementation
 
 
+class OpTimeout(BaseException):
+    pass
+
+
+def _on_alarm(signum, frame):
+    raise OpTimeout()
+
+
+signal.signal(signal.SIGALRM, _on_alarm)
+OP_TIMEOUT_S = 2.0  # a single ByteVec operation on objects of < 5 KiB takes microseconds
+
+
 def err_name(e):
     n = type(e).__name__
     return {"OutOfGasError": "OutOfGas", "RecursionError": "Recursion"}.get(n, n)
@@ -446,13 +459,27 @@ class Impl:
         raise ValueError(d)
 
     # -- one op -------------------------------------------------------------------------------------------
+    def shares_storage(self, a, b):
+        """two pool names must never denote objects sharing their chunk container (copy() must copy it)"""
+        x, y = self.pool[a], self.pool[b]
+        return a != b and (x is y or x.chunks is y.chunks)
+
     def step(self, op):
+        # guard: a whole-object value that *is* the target (possible only if copy/slice returned shared storage)
+        # would make append/set_slice iterate over the container they mutate
+        if op[0] in ("append", "setslice") and op[-1][0] == "obj" and self.shares_storage(op[1], op[-1][1]):
+            return "err SharedStorage"
+        signal.setitimer(signal.ITIMER_REAL, OP_TIMEOUT_S)
         try:
             return self._step(op)
+        except OpTimeout:
+            return "err Timeout"
         except (ValueError, IndexError, AssertionError, TypeError, RecursionError, NotImplementedError) as e:
             return "err " + err_name(e)
         except Exception as e:  # noqa: BLE001
             return "err " + err_name(e)
+        finally:
+            signal.setitimer(signal.ITIMER_REAL, 0)
 
     def _step(self, op):
         P = self.pool
@@ -545,6 +572,8 @@ class Impl:
                 P[op[2]] = P[op[1]].copy()
             else:
                 P[op[2]] = pycopy.deepcopy(State(stack=[], memory=P[op[1]])).memory
+            if self.shares_storage(op[1], op[2]):
+                return "ok !shared-storage"
             return "ok"
         if k == "slice":
             _, a, s, e, b = op
@@ -630,6 +659,9 @@ class Impl:
         parts = []
         for n in NAMES:
             bv = self.pool[n]
+            if len(bv.chunks) > 20000:
+                parts.append(f"{n}={len(bv)}:!huge")
+                continue
             try:
                 toks = tok_str(self.chunk_tokens(bv))
             except RecursionError:
@@ -1008,18 +1040,38 @@ class Runner:
         self.records = []  # per line: None (reset) or dict
         self.histories = []
 
-    def add_history(self, ops, tag):
-        """run on the real code + PyFlat now, queue the lines for Lean"""
+    def save_preamble(self, pre):
+        """make the Lean side remember the pool after `pre` (compared like any history)"""
+        self.add_history(list(pre), "preamble")
+        self.lines.append("save")
+        self.records.append(None)
+
+    def add_history(self, ops, tag, restored_preamble=None):
+        """run on the real code + PyFlat now, queue the lines for Lean.
+        restored_preamble: operations already checked once (save_preamble) that are re-applied to the real code
+        without being compared again; the Lean side returns to the saved pool instead"""
         ctx = self.ctx
         mode = "alias" if self.alias_live else "noalias"
-        self.lines.append(f"reset {mode} " + " ".join(NAMES))
-        self.records.append(None)
         impl = Impl(ctx.rng, ctx)
         flat = PyFlat()
+        if restored_preamble is None:
+            self.lines.append(f"reset {mode} " + " ".join(NAMES))
+        else:
+            self.lines.append("restore")
+            quiet = Impl(None)
+            quiet.pool = impl.pool
+            for op in restored_preamble:
+                quiet.step(op)
+                flat.step(op)
+            ops = list(restored_preamble) + list(ops)
+        self.records.append(None)
+        skip = len(restored_preamble) if restored_preamble is not None else 0
         hist = {"ops": ops, "tag": tag, "first": len(self.lines)}
         self.histories.append(hist)
-        lay_before = {n: "-" for n in NAMES}
+        lay_before = parse_layouts(impl.digest()) if skip else {n: "-" for n in NAMES}
         for i, op in enumerate(ops):
+            if i < skip:
+                continue
             flat_before = {n: flat.pool[n] for n in NAMES}
             pos = position_class(op, flat_before, lay_before)
             r_impl = impl.step(op)
@@ -1394,35 +1446,39 @@ def correspond(ctx):
 
     full3 = ctx.tier == "thorough"
     n_exh = 0
+    runner.save_preamble(PREAMBLE)
     for L in (1, 2):
         for seq in itertools.product(A, repeat=L):
             if admissible(seq):
-                runner.add_history(PREAMBLE + list(seq) + [("unwrap", "a"), ("slice", "a", 0, 17, "c")], f"exh{L}")
+                runner.add_history(list(seq) + [("unwrap", "a"), ("slice", "a", 0, 17, "c")], f"exh{L}", PREAMBLE)
                 n_exh += 1
     runner.finish()
     if full3:
         batch = 0
+        runner.save_preamble(PREAMBLE)
         for seq in itertools.product(A, repeat=3):
             if admissible(seq):
-                runner.add_history(PREAMBLE + list(seq) + [("unwrap", "a")], "exh3")
+                runner.add_history(list(seq) + [("unwrap", "a")], "exh3", PREAMBLE)
                 n_exh += 1
                 batch += 1
-                if batch >= 20000:
+                if batch >= 40000:
                     runner.finish()
+                    runner.save_preamble(PREAMBLE)
                     batch = 0
         runner.finish()
     else:
-        for _ in range(ctx.scale(2500, 0)):
+        runner.save_preamble(PREAMBLE)
+        for _ in range(ctx.scale(6000, 0)):
             seq = [ctx.rng.choice(A) for _ in range(3)]
             if admissible(seq):
-                runner.add_history(PREAMBLE + seq + [("unwrap", "a")], "exh3-sample")
+                runner.add_history(seq + [("unwrap", "a")], "exh3-sample", PREAMBLE)
                 n_exh += 1
         runner.finish()
     ctx.extra["exhaustive_histories"] = n_exh
     ctx.extra["exhaustive_scope"] = f"all histories of length <= {'3' if full3 else '2'} over an alphabet of {len(A)} operations on the offset grid {GRID}"
 
     # 2. random histories
-    n_rand = ctx.scale(2000, 50000)
+    n_rand = ctx.scale(4000, 20000)
     max_len = ctx.scale(40, 80)
     max_off = ctx.scale(96, 4096)
     gen = Gen(ctx.rng, lits, max_off)
